@@ -108,6 +108,21 @@ def h_eigh_scales(ctx):
                    sum(np.outer(Qp[c][0][:, 0], Qp[d - c][0][:, 0]) for c in range(d + 1)), 'projector on eigenvector 0, order %d, D\'=%d' % (d, Dp))
 
 
+def h_tie(ctx, fname, D):
+    """maximum / minimum with exactly tied zeroth coefficients: coefficients of order < D' do not
+    depend on D (whatever rule selects the branch, it must not look at coefficients >= D')"""
+    from .common import mk_utpm, plain
+    algopy = symx.load_algopy()
+    X = O.make_input(ctx, O.Arg('utpm', (1,)), 'x', D, 1)
+    Y = O.make_input(ctx, O.Arg('utpm', (1,)), 'y', D, 1)
+    Y[0, 0, 0] = X[0, 0, 0]
+    f = getattr(algopy, fname)
+    full = plain(f(mk_utpm(ctx, algopy, X), mk_utpm(ctx, algopy, Y)).data)
+    for Dp in range(1, D):
+        part = plain(f(mk_utpm(ctx, algopy, X[:Dp]), mk_utpm(ctx, algopy, Y[:Dp])).data)
+        ctx.eq(full[:Dp], part, '%s with tied values: coefficients < %d computed with D=%d' % (fname, Dp, D))
+
+
 def h_reverse(ctx, pname, D, P, zero_first=False):
     """reverse sweep: the adjoint coefficients of order < D' computed with D coefficients equal
     those computed from inputs and seeds truncated to D'"""
@@ -148,6 +163,10 @@ def units(tier, seed):
             continue
         out.append(Unit('C12/%s/D%d,P%d' % (op.name, D, P), 'symx.props.c12', 'h_op',
                         {'opname': op.name, 'D': D, 'P': P}, {'property': PROP, 'path_budget': 300}))
+    # long polynomials (fast paths that switch on for large D)
+    for opn in ['utpm mul utpm', 'utpm div utpm', 'pow3', 'square', 'exp', 'sin', 'log', 'sqrt', 'dot(vec,vec)']:
+        if opn in O.by_name():
+            out.append(Unit('C12/%s/D17,P1' % opn, 'symx.props.c12', 'h_op', {'opname': opn, 'D': 17, 'P': 1}, {'property': PROP, 'path_budget': 300}))
     for pn in ['x*x', 'x/(1+x*x)', 'exp', 'prod', 'dot(mat,mat)', 'buffer', 'inv', 'sin(x)*x', 'x**3', 'sqrt', 'outer']:
         out.append(Unit('C12/reverse/%s/D3,P1' % pn, 'symx.props.c12', 'h_reverse', {'pname': pn, 'D': 3, 'P': 1}, {'property': PROP, 'float_tol': 1e-6}))
     out.append(Unit('C12/reverse/prod with a zero factor/D3,P1', 'symx.props.c12', 'h_reverse', {'pname': 'prod', 'D': 3, 'P': 1, 'zero_first': True},
@@ -161,5 +180,7 @@ def units(tier, seed):
     out.append(Unit('C12/out= reused workspace/qr 2x2/D3,P1', 'symx.props.c08', 'h_qr', {'M': 2, 'N': 2, 'D': 3, 'P': 1}, dict(W)))
     out.append(Unit('C12/out= reused workspace/cholesky 2x2/D3,P1', 'symx.props.c08', 'h_cholesky', {'n': 2, 'D': 3, 'P': 1}, dict(W)))
     out.append(Unit('C12/out= reused workspace/eigh 2x2/D3,P1', 'symx.props.c08', 'h_eigh', {'n': 2, 'D': 3, 'P': 1}, dict(W)))
+    for fn in ('maximum', 'minimum'):
+        out.append(Unit('C12/%s with tied zeroth coefficients/D4' % fn, 'symx.props.c12', 'h_tie', {'fname': fn, 'D': 4}, {'property': PROP, 'path_budget': 400}))
     out.append(Unit('C12/comparisons/D3,P1', 'symx.props.c12', 'h_compare', {'D': 3, 'P': 1}, {'property': PROP, 'path_budget': 2000, 'validate_paths': 3}))
     return out
